@@ -1,0 +1,34 @@
+//go:build verif
+// +build verif
+
+// Package verifx re-exports pieces of proc/internal to the external
+// verification harness. It only exists with the `verif` build tag.
+package verifx
+
+import (
+	"time"
+
+	"github.com/samaritan-proxy/samaritan/host"
+	hcpb "github.com/samaritan-proxy/samaritan/pb/config/hc"
+	"github.com/samaritan-proxy/samaritan/pb/config/service"
+	"github.com/samaritan-proxy/samaritan/proc/internal/hc"
+	"github.com/samaritan-proxy/samaritan/proc/internal/lb"
+)
+
+// Balancer is lb.Balancer.
+type Balancer = lb.Balancer
+
+// NewBalancer creates a balancer with given policy.
+func NewBalancer(p service.LoadBalancePolicy) Balancer { return lb.New(p) }
+
+// SetRandInt replaces the sample source of balancers.
+func SetRandInt(f func() int) (old func() int) { return lb.VerifSetRandInt(f) }
+
+// Monitor is hc.Monitor.
+type Monitor = hc.Monitor
+
+// NewMonitor creates a health monitor with a scripted checker.
+func NewMonitor(config *hcpb.HealthCheck, hostSet *host.Set,
+	check func(addr string, timeout time.Duration) error) (*Monitor, error) {
+	return hc.VerifNewMonitor(config, hostSet, nil, check)
+}
